@@ -273,7 +273,13 @@ def run_writefetch(drv, case):
         except Exception as e:
             impl['payload'] = {'unreadable': type(e).__name__}
     rec['model'], rec['impl'] = model, impl
-    if model != impl:
+    # the model's round trip rests on the hypothesis dec (enc d) = d for the third-party codec: check it directly
+    hyp = True
+    if fmt != 'json' and 'payload' in model:
+        hyp = I.third_party_roundtrip(fmt, dec(m['write']['ok'][0][1]))
+        if hyp is False:
+            rec['counts'].append('codec-hypothesis-false:' + fmt)
+    if model != impl and hyp is not False:
         rec['mismatch'] = 'observations differ'
     rec['counts'].append('write:' + ('ok' if impl['write'] == 'ok' else 'err'))
     # ---- JSON: bytes of the file vs the Lean printer
@@ -307,8 +313,15 @@ def run_writefetch(drv, case):
                                             for k, v in want_w['d'])
                 got = impl['fetch']['ok']
             rec['monitor'] = {'holds': ok, 'want': want_w, 'got': got}
+    elif impl['write'] == 'ok' and 'err' in impl.get('fetch', {}) and case['variant'] in ('key', 'whole'):
+        # the payload was written, a destination key was given, and the fetch step raised
+        want = I.real_format(ctx, dict(ctx) if case['variant'] == 'whole' else dec(case['payload']))
+        if 'ok' in want:
+            rec['monitor'] = {'holds': False, 'want': I.sort_wire(want['ok']),
+                              'got': {'raised': rec.get('impl_detail', {}).get('err'),
+                                      'msg': rec.get('impl_detail', {}).get('msg')}, 'via': 'fetch-raised'}
     # ---- file context parser on the same file
-    if impl['write'] == 'ok' and (case.get('encoding') in (None, 'utf-8')):
+    if impl['write'] == 'ok' and (case.get('encoding') in (None, 'utf-8')) and hyp is not False:
         pr = I.run_parser(fmt, path)
         try:
             pm = drv.ask('codec.parser', format=fmt, doc=m['write']['ok'][0][1])
@@ -351,6 +364,16 @@ def run_fileformat(drv, case):
         rec['reject'] = f'source cannot be rendered: {type(e).__name__}'
         rec['counts'].append('unrenderable')
         return rec
+    if fmt == 'yaml' and I.sort_wire(enc(src_loaded)) != I.sort_wire(case['doc']):
+        # ruamel's own dump of this source does not read back: write the source as JSON-style flow YAML
+        try:
+            alt = json.dumps(doc, ensure_ascii=True)
+            alt_loaded = I.plain(I.load(fmt, alt))
+            if I.sort_wire(enc(alt_loaded)) == I.sort_wire(case['doc']):
+                src_text, src_loaded = alt, alt_loaded
+                rec['counts'].append('yaml-source-as-json-flow')
+        except Exception:
+            pass
     if I.sort_wire(enc(src_loaded)) != I.sort_wire(case['doc']):
         # the third-party writer/loader pair does not round-trip this source: the codec hypothesis fails
         rec['counts'].append('codec-hypothesis-false-on-source')
@@ -366,7 +389,12 @@ def run_fileformat(drv, case):
         except Exception as e:
             impl = {'unreadable': type(e).__name__}
     rec['model'], rec['impl'] = model, impl
-    if model != impl:
+    hyp = True
+    if fmt != 'json' and 'ok' in m:
+        hyp = I.third_party_roundtrip(fmt, dec(m['ok']))
+        if hyp is False:
+            rec['counts'].append('codec-hypothesis-false:' + fmt)
+    if model != impl and hyp is not False:
         rec['mismatch'] = 'observations differ'
     rec['counts'].append('result:' + ('ok' if 'ok' in impl else 'err'))
     if 'ok' in impl or 'unreadable' in impl:
@@ -561,39 +589,55 @@ def run_all(env, cases, workers):
     return out
 
 
-def node_kind(want, got):
-    """First differing node (for the finding signature)."""
-    def kind(w):
-        if w is None:
-            return 'none'
-        if isinstance(w, bool):
-            return 'bool'
-        if isinstance(w, int):
-            return 'int'
-        if isinstance(w, str):
-            return 'str'
-        if isinstance(w, list):
-            return 'list'
-        if isinstance(w, dict):
-            return next(iter(w), 'obj')
-        return 'other'
-    if kind(want) != kind(got):
-        return f'{kind(want)}->{kind(got)}', want, got
+SPECIAL = {'\x85': 'U+0085', '\u2028': 'U+2028', '\u2029': 'U+2029', '\r': 'CR', '\ufeff': 'BOM', '\x00': 'NUL',
+           '\x7f': 'DEL', '\t': 'TAB', '\n': 'LF'}
+
+
+def kind_of(w):
+    if w is None:
+        return 'none'
+    if isinstance(w, bool):
+        return 'bool'
+    if isinstance(w, int):
+        return 'int'
+    if isinstance(w, str):
+        return 'str'
+    if isinstance(w, list):
+        return 'list'
+    if isinstance(w, dict):
+        return {'d': 'dict', 'f': 'float'}.get(next(iter(w), ''), 'obj')
+    return 'other'
+
+
+def first_diff(want, got):
+    """First differing node of two canonical wire values: (what, wanted node, node got)."""
+    if kind_of(want) != kind_of(got):
+        return f'{kind_of(want)}->{kind_of(got)}', want, got
     if isinstance(want, list):
         if len(want) != len(got):
             return 'list-length', want, got
         for a, b in zip(want, got):
             if a != b:
-                return node_kind(a, b)
+                return first_diff(a, b)
     if isinstance(want, dict) and 'd' in want:
+        gd = {json.dumps(k): v for k, v in got['d']}
+        for k, v in want['d']:
+            kk = json.dumps(k)
+            if kk not in gd:
+                return 'key', k, [g for g, _ in got['d'] if json.dumps(g) not in {json.dumps(x) for x, _ in want['d']}][:1]
+            if gd[kk] != v:
+                return first_diff(v, gd[kk])
         if len(want['d']) != len(got['d']):
             return 'dict-size', want, got
-        for (ka, va), (kb, vb) in zip(want['d'], got['d']):
-            if ka != kb:
-                return 'key:' + node_kind(ka, kb)[0], ka, kb
-            if va != vb:
-                return node_kind(va, vb)
-    return f'{kind(want)}-value', want, got
+    return kind_of(want), want, got
+
+
+def cause_of(what, a):
+    if isinstance(a, str):
+        sp = sorted({name for ch, name in SPECIAL.items() if ch in a and name not in ('TAB', 'LF')})
+        if sp:
+            return 'str-with-' + '+'.join(sp)
+    return what
 
 
 def absorb(res, rec):
@@ -613,16 +657,25 @@ def absorb(res, rec):
         res.mismatch(case, rec.get('model'), rec.get('impl'), rec['mismatch'])
     mon = rec.get('monitor')
     if mon is not None and not mon['holds']:
-        what, a, b = node_kind(mon['want'], mon['got']) if isinstance(mon['got'], (dict, list, str, int)) or mon['got'] is None \
-            else ('unreadable', mon['want'], mon['got'])
         flow = case['flow']
-        detail = (f"{flow} {case['format']}: " +
-                  ('value read back differs from the formatted payload' if flow == 'writefetch'
-                   else 'output document differs from the source with every string node formatted') +
-                  f" at a {what} node: wanted {json.dumps(a)[:160]}, got {json.dumps(b)[:160]}")
+        if mon.get('via') == 'fetch-raised':
+            top = kind_of(mon['want'])
+            cause = 'fetch-raised-on-top-level-' + top
+            detail = (f"writefetch {case['format']}: the payload was written but the fetch step raised "
+                      f"{mon['got'].get('raised')}: {mon['got'].get('msg')} (top-level {top}, destination key given)")
+            a = mon['want']
+        else:
+            if isinstance(mon['got'], dict) and 'unreadable' in mon['got']:
+                what, a, b = 'unreadable', mon['want'], mon['got']
+            else:
+                what, a, b = first_diff(mon['want'], mon['got'])
+            cause = cause_of(what, a)
+            detail = (f"{flow} {case['format']}: " +
+                      ('value read back differs from the formatted payload' if flow == 'writefetch'
+                       else 'output document differs from the source with every string node formatted') +
+                      f" at a {what} node: wanted {json.dumps(a)[:160]}, got {json.dumps(b)[:160]}")
         res.violation(case, detail,
-                      signature={'flow': flow, 'format': case['format'], 'node': what,
-                                 'value': json.dumps(a)[:60]},
+                      signature={'flow': flow, 'format': case['format'], 'cause': cause},
                       impl={'want': mon['want'], 'got': mon['got'], 'via': mon.get('via')})
 
 
